@@ -101,6 +101,7 @@ Inductive obs :=
 | ODegrees (n : Z) (outd ind : Z)
 | OFind (key : Z) (v : value) (ids : zs)                     (* find_nodes_by_property, sorted *)
 | OFindRange (key : Z) (lo hi : option value) (li hi_i : bool) (ids : zs)
+| OFindAll (conds : list (Z * value)) (ids : zs)               (* find_nodes_by_properties, sorted *)
 | OMight (node : bool) (key : Z) (v : value) (bs : list bool)   (* might_match for Eq Ne Lt Le Gt Ge *)
 | OZone (key : Z) (z : option (option value * option value * Z * Z))   (* node_property_zone_map *)
 | OStats (nodes edges : Z) (labels etypes : list (Z * Z))    (* statistics(), maps sorted by name *)
@@ -147,6 +148,7 @@ Definition chk_obs (s : state) (o : obs) : bool :=
   | ODegrees n a b => (out_degree s n =? a) && (in_degree s n =? b)
   | OFind k v ids => zs_eqb (zsortf (find_by_prop s k v)) ids
   | OFindRange k lo hi li hi_i ids => zs_eqb (zsortf (find_in_range s k lo hi li hi_i)) ids
+  | OFindAll conds ids => zs_eqb (zsortf (find_by_props s conds)) ids
   | OMight true k v bs => list_eqb Bool.eqb (map (fun o => node_might_match s k o v) all_ops) bs
   | OMight false k v bs => list_eqb Bool.eqb (map (fun o => edge_might_match s k o v) all_ops) bs
   | OZone k z => zone_obs_eqb (node_zone s k) z
@@ -223,6 +225,13 @@ Definition k_index_dead (backward : bool) (ops : list op) (key : Z) (q : value) 
   let s := run (init backward) ops in
   hist_sets_dead (init backward) ops && has_index s key
   && negb (zlist_eqb (zsortf (find_by_prop s key q)) (zsortf (scan_by_prop s key q))).
+
+(** K3 / K6 through find_nodes_by_properties *)
+Definition k_props (backward : bool) (ops : list op) (conds : list (Z * value)) : bool :=
+  let s := run (init backward) ops in
+  (existsb (fun c => has_float_special (snd c)) conds || hist_sets_dead (init backward) ops)
+  && existsb (fun c => has_index s (fst c)) conds
+  && negb (zlist_eqb (zsortf (find_by_props s conds)) (zsortf (scan_by_props s conds))).
 
 Definition col_witness (c : column) (o : cmpop) (q : value) : bool :=
   existsb (fun x => sat o x q) (map snd (c_vals c)).
